@@ -103,23 +103,29 @@ ADDED = {
 
 # Round 4 (hostile-caller shapes, DESIGN.md 12.7): appended after ADDED.
 ADDED4 = {
-    "C01": ("; rejected parses (texts that fail late, in the degree lists) interleaved on the worker threads between judged cases",
+    "C01": ("; rejected parses (texts that fail late, in the degree lists) interleaved on the worker threads between judged cases; bounded progress: every in-process parse under a 30 s CPU-time budget of the calling thread",
             " A valid text must be accepted whatever the thread parsed before; long rejected strings with a multi-byte character at every byte offset up to 420 after the first offending character.", ""),
     "C02": ("; PartialDSet builder histories with rejected calls (caught panics) in between, whole state compared with the model after every call", "", ""),
     "C03": ("", " Branching numbers around the sign bit of the machine word (2^62..2^64-1) on orbits of length 1; long-tie strips (20,000-140,000 chambers, one marked orbit off the middle) under reversal, rotation and a random renumbering.", ""),
     "C04": ("", " Base images outside the target (0, size+1, usize::MAX) must give None; degree tuples that compensate each other across a power-of-two radix ((a+B, b) against (a, b+1), B = 2^8, 2^16, 2^32).", ""),
+    "C05": ("", " Cover lists at sheet bounds 66-140 on symbols with small dihedral / cyclic groups (tables wider than a machine word); 1.5 million (thorough 20 million) subgroup covers from short, medium and long generating words on every spherical 2D symbol with <= 4 chambers.", ""),
     "C06": ("; iterator-contract oracle: the generator driven through nth / skip / step_by / take-in-chunks / last / fold / peekable must yield the items and numbers of the plain next() sequence, size_hint must bracket the truth, an exhausted generator stays exhausted", "", ""),
     "C07": ("; iterator-contract oracle (as C06) on DSyms", " Flags of the 7- and 8-gonal prism (23 and 26 two-orbits; thorough 5..11-gonal): validity, numbering, irredundancy under the 4p automorphisms and the union clause without the reference enumeration.", ""),
-    "C08": ("", " Mirror polygons with 20-60 corner points (strips with op2 = identity), single-digit and mixed corner orders.", ""),
     "C10": ("; abandoned constructor calls (input iterator that panics half way, caught) interleaved on the worker threads between judged cases",
             " Conjugate-before-core histories: u c u^-1 queried before c, its rotations, its inverse and partial conjugates on the same thread.", ""),
-    "C12": ("; iterator-contract oracle (as C06) on the table enumeration", "", ""),
+    "C12": ("; iterator-contract oracle (as C06) on the table enumeration; abandoned enumerations between judged cases", "", ""),
     "C13": ("; relators handed over in three iterator forms; abandoned stabilizer calls (relator with a generator the table lacks, base row outside the table) between judged cases",
             " Intersection with 104,927 rows (beyond the 100,000-row limit of coset enumeration, which does not apply to this routine).", ""),
     "C14": ("; relators handed over in six iterator forms (exact size, filter, chain, no size hint at all, flat_map, take_while); abandoned calls (panicking iterator, out-of-range generator) between judged cases", "", ""),
-    "C17": ("; out-of-domain calls (2D, 1D, 5-fold axis) between judged cases", "", ""),
-    "C19": ("; edge lists handed over in six iterator forms; abandoned and out-of-domain queries between judged cases",
-            " Extreme vertex names (usize::MAX, 2^63, 2^32+1) in edge-cut queries.", ""),
+    "C11": ("; abandoned calls (generator the group does not have) between judged cases", " Polyhedral groups written with mixed-sign relators (a b^-1)^q and 2-3 long-word subgroups of them.", ""),
+    "C15": ("; out-of-domain calls between judged cases; cover lists at a small sheet bound made on the same thread before toroidal_cover",
+            " Cone-free covers of corpus symbols built by the harness alone from random 2-3 generator subgroups (closed flat manifolds other than the torus, 24-144 chambers, ~400 per quick run): a pseudo-toroidal cover must be found and certified.", ""),
+    "C16": ("", " 2-, 3- and 4-sheeted covers (480-960 chambers) of the tori of corpus symbols with large faces.", ""),
+    "C17": ("; out-of-domain calls (2D, 1D, 5-fold axis) between judged cases", " Covers with up to 8 sheets / 24 chambers of every small symbol reported euclidean, in the quick tier too.", ""),
+    "C18": ("; abandoned calls (division by the zero class, product of mismatched shapes) between judged cases", "", ""),
+    "C08": ("; out-of-domain calls (3D, 1D symbols) between judged cases", " Mirror polygons with 20-60 corner points (strips with op2 = identity), single-digit and mixed corner orders.", ""),
+    "C19": ("; edge lists handed over in six iterator forms; abandoned queries between judged cases; bounded progress: every query under a 30 s CPU-time budget of the calling thread, a query over budget is a violation",
+            " Extreme vertex names (usize::MAX, 2^63, 2^32+1) in edge-cut queries; terminals that occur in no edge (isolated vertices).", ""),
     "C20": ("; abandoned operations: Partition<Fragile>, an element type whose Clone gives up once during find of a never-seen element (caught), instance used on",
             "", ""),
 }
